@@ -18,7 +18,7 @@ fn poly_mag(c: &[f64], x: f64) -> f64 {
     let mut p = 1.0;
     for ci in c {
         let t = ci.abs() * p;
-        if *ci != 0.0 && !((1e-250..1e250).contains(&t) && (1e-250..1e250).contains(&p)) {
+        if *ci != 0.0 && !((1e-250..1e250).contains(&t) && (1e-250..1e250).contains(&p) && (1e-250..1e250).contains(&ci.abs())) {
             return f64::NAN;
         }
         a += t;
